@@ -125,28 +125,28 @@ theorem C02_final_difference_recovers (k : Nat) (mk : Nat → Bool) (log : List 
 one difference carrying message 1 @11 and delete 2 @12 — the delete is never dispatched although
 the position reaches 12. -/
 theorem C02_rerouted_other_update_counterexample :
-    let log : List Entry := [⟨1, .msg, 0, 11, 1⟩, ⟨2, .other, 0, 12, 1⟩]
+    let log : List Entry := [⟨1, .msg, 0, 11, 1, 0⟩, ⟨2, .other, 0, 12, 1, 0⟩]
     complete log (fun _ => false) 10
       (srun ⟨[.dispatch, .store], false, fun _ => false⟩ { state := 10 }
-        [.clear, .push ⟨2, .other, 0, 12, 1⟩, .seq diffShape 12 [⟨1, .msg, 0, 11, 1⟩]]).2 = false := by decide
+        [.clear, .push ⟨2, .other, 0, 12, 1, 0⟩, .seq diffShape 12 [⟨1, .msg, 0, 11, 1, 0⟩]]).2 = false := by decide
 
 /-- With `break` instead of `continue` in the marker skip: channel at 5, affected result 1 covering
 position 6 is overtaken by messages 2 @7 and 3 @8; when it arrives the batch [marker, 2, 3] is
 applied, the position reaches 8, and neither message was ever dispatched. -/
 theorem C02_marker_break_counterexample :
-    let log : List Entry := [⟨1, .chaff, 5, 6, 1⟩, ⟨2, .chmsg, 5, 7, 1⟩, ⟨3, .chmsg, 5, 8, 1⟩]
+    let log : List Entry := [⟨1, .chaff, 5, 6, 1, 0⟩, ⟨2, .chmsg, 5, 7, 1, 0⟩, ⟨3, .chmsg, 5, 8, 1, 0⟩]
     let r := srun ⟨[.dispatch, .store], true, fun i => i == 1⟩ { state := 5 }
-        [.push ⟨2, .chmsg, 5, 7, 1⟩, .push ⟨3, .chmsg, 5, 8, 1⟩, .push ⟨1, .chaff, 5, 6, 1⟩]
+        [.push ⟨2, .chmsg, 5, 7, 1, 0⟩, .push ⟨3, .chmsg, 5, 8, 1, 0⟩, .push ⟨1, .chaff, 5, 6, 1, 0⟩]
     r.1.state = 8 ∧ complete log (fun i => i == 1) 5 r.2 = false := by decide
 
 /-! ### Non-vacuity -/
 
-def exLog : List Entry := [⟨1, .msg, 0, 11, 1⟩, ⟨2, .other, 0, 13, 2⟩, ⟨3, .msg, 0, 14, 1⟩, ⟨4, .msg, 0, 15, 1⟩]
+def exLog : List Entry := [⟨1, .msg, 0, 11, 1, 0⟩, ⟨2, .other, 0, 13, 2, 0⟩, ⟨3, .msg, 0, 14, 1, 0⟩, ⟨4, .msg, 0, 15, 1, 0⟩]
 /-- (11,13] arrives first and is parked, 11 fills the gap, a duplicate of 11 is dropped, then a
 sliced recovery delivers 14 and 15. -/
 def exOps : List SOp :=
-  [.push ⟨2, .other, 0, 13, 2⟩, .push ⟨1, .msg, 0, 11, 1⟩, .push ⟨1, .msg, 0, 11, 1⟩, .clear,
-   .seq diffShape 14 [⟨3, .msg, 0, 14, 1⟩], .clear, .seq diffShape 15 [⟨4, .msg, 0, 15, 1⟩]]
+  [.push ⟨2, .other, 0, 13, 2, 0⟩, .push ⟨1, .msg, 0, 11, 1, 0⟩, .push ⟨1, .msg, 0, 11, 1, 0⟩, .clear,
+   .seq diffShape 14 [⟨3, .msg, 0, 14, 1, 0⟩], .clear, .seq diffShape 15 [⟨4, .msg, 0, 15, 1, 0⟩]]
 
 example : tiled 10 exLog = true := by decide
 def exCfg : ACfg := ⟨[.dispatch, .store], false, fun _ => false⟩
@@ -156,7 +156,7 @@ example : dispatchedIds (srun exCfg { state := 10 } exOps).2 = [1, 2, 3, 4] := b
 /-- The affected-marker history with the regenerated callback of a channel: both overtaking messages
 are dispatched when the marker closes the hole. -/
 example : (srun (applyCfgOf orders (fun i => i == 1) 7) { state := 5 }
-    [.push ⟨2, .chmsg, 5, 7, 1⟩, .push ⟨3, .chmsg, 5, 8, 1⟩, .push ⟨1, .chaff, 5, 6, 1⟩]).2 =
+    [.push ⟨2, .chmsg, 5, 7, 1, 0⟩, .push ⟨3, .chmsg, 5, 8, 1, 0⟩, .push ⟨1, .chaff, 5, 6, 1, 0⟩]).2 =
     [.dispatch [2, 3], .store 8] := by decide
 
 /-! ### The whole manager model on the two D11 histories -/
@@ -166,12 +166,12 @@ def preRepair : Orders := { orders with ownDirect := false, chOwnDirect := false
 
 /-- Stored pts 10; `msg 1 @11`, `delete 2 @12` happen offline; `updatesTooLong`. -/
 def commonHistory (O : Orders) : List Event :=
-  ((Mgr.start O { log := [⟨1, .msg, 0, 11, 1⟩, ⟨2, .other, 0, 12, 1⟩], p0 := 10, q0 := 0, c0 := [] } 10 0 []).runActions O
+  ((Mgr.start O { log := [⟨1, .msg, 0, 11, 1, 0⟩, ⟨2, .other, 0, 12, 1, 0⟩], p0 := 10, q0 := 0, c0 := [] } 10 0 []).runActions O
     [.emit 2, .tooLong]).trace
 
 /-- Channel 5 at pts 5; `channel msg 1 @6`, `channel delete 2 @7` happen offline; `updateChannelTooLong`. -/
 def channelHistory (O : Orders) : List Event :=
-  ((Mgr.start O { log := [⟨1, .chmsg, 5, 6, 1⟩, ⟨2, .chother, 5, 7, 1⟩], p0 := 10, q0 := 0, c0 := [(5, 5)] } 10 0 [(5, 5)]).runActions O
+  ((Mgr.start O { log := [⟨1, .chmsg, 5, 6, 1, 0⟩, ⟨2, .chother, 5, 7, 1, 0⟩], p0 := 10, q0 := 0, c0 := [(5, 5)] } 10 0 [(5, 5)]).runActions O
     [.emit 2, .chTooLong 5]).trace
 
 /-- Manager model, pre-repair routing, common history: only the message reaches the handler while
